@@ -20,6 +20,10 @@ use std::sync::Mutex;
 struct CachedInfoset {
     reg: RegretInfoset,
     cached: usize,
+    #[cfg(cfr_verif)]
+    verif_id: usize,
+    #[cfg(cfr_verif)]
+    verif_pass: u64,
 }
 
 impl CachedInfoset {
@@ -28,13 +32,36 @@ impl CachedInfoset {
         CachedInfoset {
             reg: RegretInfoset::new(num_actions),
             cached: 0,
+            #[cfg(cfr_verif)]
+            verif_id: crate::verif::next_id(crate::verif::Kind::Player),
+            #[cfg(cfr_verif)]
+            verif_pass: 0,
         }
     }
 
     /// Sample an action from the current strategy, caches between resets
     fn sample(&mut self) -> usize {
         if self.cached == 0 {
+            #[cfg(cfr_verif)]
+            if let Some(res) = crate::verif::draw(
+                crate::verif::Kind::Player,
+                self.verif_id,
+                self.verif_pass,
+                &self.reg.strat,
+            ) {
+                self.cached = res + 1;
+                return res;
+            }
             let res = Multinomial::new(&self.reg.strat).sample(&mut thread_rng());
+            #[cfg(cfr_verif)]
+            crate::verif::record(
+                crate::verif::Kind::Player,
+                self.verif_id,
+                self.verif_pass,
+                &self.reg.strat,
+                res,
+                false,
+            );
             self.cached = res + 1;
             res
         } else {
@@ -155,6 +182,10 @@ impl ActiveInfo for CachedInfoset {
     }
 
     fn advance<const FIRST: bool>(&mut self, it: u64, params: &RegretParams) -> f64 {
+        #[cfg(cfr_verif)]
+        {
+            self.verif_pass += 1;
+        }
         self.cached = 0;
         params.regret_match(&mut *self.reg.cum_regret, &mut self.reg.strat);
         params.discount_cum_regret(it, &mut *self.reg.cum_regret);
@@ -214,6 +245,8 @@ fn recurse_regret<const FIRST: bool>(
     external_player_infosets: &[impl ExternalRecurse],
     cached: &impl CachedPayoff,
 ) -> f64 {
+    #[cfg(cfr_verif)]
+    crate::verif::yield_point();
     if let Some(pay) = cached.get_payoff(node) {
         pay
     } else {
